@@ -7,6 +7,7 @@ The first token selects the number type the generic model is run at:
 `<cfg>` = `N K D edges A minv maxv eps rtol normU` (10 tokens; `maxv` = `none` or `t:v`; matrices `a,b;c,d`).
 
   `X sweep <cfg> u w psi bar rho lams perm` -> `u w psi bar rho lamAll penIncr penDef` after one `_update_em`
+  `X node  <cfg> u w psi bar rho lams i`    -> the same 8 fields after one pass of the loop body of `_update_u`
   `X init  <cfg> r0 uk u0 w0`                 -> the same 8 fields after the initialisation of a realisation
   `X ll    <cfg> u w psi`                   -> `lamAll penIncr penDef`
   `X rho   <cfg> u w`                       -> `rho`
@@ -61,6 +62,14 @@ def stepG : List String → String
       match cd.mat? u, cd.mat? w, cd.mat? psi, cd.mat? bar, cd.mat? rho, cd.list? lams, nats? perm with
       | some u, some w, some psi, some bar, some rho, some lams, some perm =>
         cd.showState c (emSweep c { u := u, w := w, psi := psi, bar := bar, rho := rho, lams := lams } perm)
+      | _, _, _, _, _, _, _ => "bad-args"
+    | _, _ => "bad-op"
+  | "node" :: rest =>
+    match cd.cfg? (rest.take 10), rest.drop 10 with
+    | some c, [u, w, psi, bar, rho, lams, i] =>
+      match cd.mat? u, cd.mat? w, cd.mat? psi, cd.mat? bar, cd.mat? rho, cd.list? lams, nat? i with
+      | some u, some w, some psi, some bar, some rho, some lams, some i =>
+        cd.showState c (uNode c { u := u, w := w, psi := psi, bar := bar, rho := rho, lams := lams } i)
       | _, _, _, _, _, _, _ => "bad-args"
     | _, _ => "bad-op"
   | "init" :: rest =>
